@@ -221,9 +221,10 @@ def run(ctx, replay_cases=None):
     decl = dsum.pop("table")
     if ctx.tier == "thorough":
         # validate the batched dump against one compilation per row
-        rc, out, _ = core.sh([os.path.join(bindir, "c26"), "dump", "--single"], env=core.erg_env(), timeout=3600)
+        rc, out, _ = core.sh([os.path.join(bindir, "c26"), "dump", "--single", "--stride", "3"], env=core.erg_env(), timeout=3600)
         single = {"%s %s %s %s" % tuple(l.split("\t")[:4]): l.split("\t")[4] for l in out.split("\n") if l}
-        diff = [k for k in decl if single.get(k) != decl[k]]
+        diff = [k for k in single if single[k] != decl.get(k)]
+        dsum["single_rows_checked"] = len(single)
         dsum["single_vs_batched_diff"] = diff[:10]
         if diff:
             ctx.violation({"kind": "dump-inconsistent", "rows": diff[:20]}, no_input=True)
